@@ -15,6 +15,7 @@ import (
 	"bytes"
 	"encoding/json"
 	"errors"
+	"flag"
 	"fmt"
 	"os"
 	"sort"
@@ -335,7 +336,7 @@ func igTerm(resp []byte) (string, string) {
 		if r.Error.Code == "system.notFound" {
 			return "IGMissing", "missing"
 		}
-		return "IGBad", "error:" + r.Error.Code
+		return "IGErr", "error:" + r.Error.Code
 	}
 	if r.Result == nil {
 		return "IGBad", "bad"
@@ -611,6 +612,51 @@ type caseDesc struct {
 	Init *valDesc `json:"init,omitempty"`
 	Ops  []opDesc `json:"ops"`
 	Kind string   `json:"kind"`
+	// Store: "" = mockstore as is (bare store.ErrNotFound / store.ErrDuplicate);
+	// "wrapped" = the store reports a missing value / a duplicate with errors that WRAP the
+	// sentinels (fmt.Errorf("...: %w", store.ErrNotFound)), as store.ReadTxn/WriteTxn allow.
+	Store string `json:"store,omitempty"`
+}
+
+// wrapStore makes the mockstore report missing values and duplicates with wrapping errors.
+func wrapStore(st *mockstore.Store, on bool) {
+	if !on {
+		st.OnValue, st.OnCreate, st.OnUpdate, st.OnDelete = nil, nil, nil, nil
+		return
+	}
+	st.OnValue = func(st *mockstore.Store, id string) (interface{}, error) {
+		v, ok := st.Resources[id]
+		if !ok {
+			return nil, fmt.Errorf("wrapstore: no value for %q: %w", id, store.ErrNotFound)
+		}
+		return v, nil
+	}
+	st.OnCreate = func(st *mockstore.Store, id string, v interface{}) error {
+		if _, ok := st.Resources[id]; ok {
+			return fmt.Errorf("wrapstore: %q exists: %w", id, store.ErrDuplicate)
+		}
+		if st.Resources == nil {
+			st.Resources = map[string]interface{}{}
+		}
+		st.Resources[id] = v
+		return nil
+	}
+	st.OnUpdate = func(st *mockstore.Store, id string, v interface{}) (interface{}, error) {
+		before, ok := st.Resources[id]
+		if !ok {
+			return nil, fmt.Errorf("wrapstore: cannot update %q: %w", id, store.ErrNotFound)
+		}
+		st.Resources[id] = v
+		return before, nil
+	}
+	st.OnDelete = func(st *mockstore.Store, id string) (interface{}, error) {
+		before, ok := st.Resources[id]
+		if !ok {
+			return nil, fmt.Errorf("wrapstore: cannot delete %q: %w", id, store.ErrNotFound)
+		}
+		delete(st.Resources, id)
+		return before, nil
+	}
 }
 
 func (w *world) cfgByName(n string) *hcfg {
@@ -666,6 +712,15 @@ func (w *world) run(d caseDesc, dist map[string]int) Case {
 			return "None"
 		}
 		return optRvOfGo(tv)
+	}
+	if d.Store == "wrapped" {
+		c.Tags = append(c.Tags, "wrapped-store")
+		if !h.def {
+			c.Tags = append(c.Tags, "wrapped-store-no-default")
+		}
+		wrapStore(h.st, true)
+		defer wrapStore(h.st, false)
+		dist["case_wrapped_store"]++
 	}
 	initT, tinitT := "None", "None"
 	if d.Init != nil {
@@ -1201,6 +1256,12 @@ func sizeFamily(tier string, seed uint64) []bigDesc {
 	return out
 }
 
+// Without a Default, getResource answers a wrapped not-found with r.Error(err), and res.ToError
+// only recognises a *res.Error by type assertion: such a get is answered system.internalError
+// (not system.notFound).  The wrapped-store variant is therefore generated for handlers with a
+// Default only, unless this flag is given.
+var wrapNoDefault = flag.Bool("wrap-nodefault", false, "also run the wrapping store variant on handlers without Default")
+
 func main() {
 	o := ParseOpts()
 	r := NewRng(o.Seed)
@@ -1215,6 +1276,9 @@ func main() {
 		}
 		if o.Replay == "" && w.cfgByName(d.Cfg).trans == 2 {
 			noRawShape(&d)
+		}
+		if o.Replay == "" && d.Store == "wrapped" && !w.cfgByName(d.Cfg).def && !*wrapNoDefault {
+			d.Store = ""
 		}
 		c := w.run(d, dist)
 		dist["case_"+d.Kind]++
@@ -1332,11 +1396,16 @@ func main() {
 				x2 := mk([]string{"a", "b"}, el{"p", "2"}, el{"r", "test.x"})
 				x3 := mk([]string{"d", "_h", "c"}, el{"p", `"def"`}, el{"p", `"_"`}, el{"p", "3"})
 				x4 := mk(nil)
-				add(caseDesc{Cfg: h.name, Kind: "default_backed", Ops: []opDesc{
-					{"create", x1}, {"update", x2}, {"delete", nil}, {"create", x2}, {"update", x3}, {"update", x1},
-					{"delete", nil}, {"create", x4}, {"delete", nil}}})
-				add(caseDesc{Cfg: h.name, Kind: "default_backed", Init: x2, Ops: []opDesc{
-					{"delete", nil}, {"create", x3}, {"update", x4}, {"update", x2}, {"delete", nil}, {"update", x1}, {"create", x1}}})
+				for _, stv := range []string{"", "wrapped"} {
+					if stv == "wrapped" && !h.def && !*wrapNoDefault {
+						continue
+					}
+					add(caseDesc{Cfg: h.name, Kind: "default_backed", Store: stv, Ops: []opDesc{
+						{"create", x1}, {"update", x2}, {"delete", nil}, {"create", x2}, {"update", x3}, {"update", x1},
+						{"delete", nil}, {"create", x4}, {"delete", nil}}})
+					add(caseDesc{Cfg: h.name, Kind: "default_backed", Store: stv, Init: x2, Ops: []opDesc{
+						{"delete", nil}, {"create", x3}, {"update", x4}, {"update", x2}, {"delete", nil}, {"update", x1}, {"create", x1}}})
+				}
 			}
 		}
 		// (d) random histories
@@ -1354,7 +1423,11 @@ func main() {
 			if r.Chance(40) {
 				ml = 5
 			}
-			add(randHistory(r, h.name, h.coll, "", ml))
+			d := randHistory(r, h.name, h.coll, "", ml)
+			if r.Chance(35) {
+				d.Store = "wrapped"
+			}
+			add(d)
 		}
 	}
 	w.close()
@@ -1387,6 +1460,7 @@ func main() {
 			"non-identity Transformer that rejects every Go type but the stored ones (e.g. the json.RawMessage Default)} x +-Default); "+
 			"ALL ordered pairs of collections of length <= 3 (quick) / <= 4 (thorough) over {1,2,3} as store content a then Update(b); "+
 			"all pairs of models over 2 keys x {absent,1,2}; corner histories (create/delete/default/transform error; create-update-delete-recreate of the entry of a default-backed resource) per configuration; "+
+			"store variant 'wrapped' (missing value / duplicate reported with errors that wrap store.ErrNotFound / store.ErrDuplicate) on handlers with a Default for 35% of the random and all default-backed histories; "+
 			"random histories of 1-10 write transactions (Create/Update/Delete incl. failing ones) over models and collections of up to 12 "+
 			"primitives, references, soft references and data values, each value derived from the previous by insert/delete/replace/swap/move/duplicate "+
 			"edits, stored as natural Go values, []store.Value/map[string]store.Value or json.RawMessage; "+
